@@ -22,7 +22,9 @@ RegOps == {"add", "modify", "remove", "contains", "unit"}
 \* objects exist: the step is then consumed without the transition and reported as drift)
 Guard(e) ==
   CASE e.op \in RegOps -> TRUE
-    [] e.op = "make" -> Len(objs) < MaxObj
+    [] e.op = "newsys" -> TRUE
+    [] e.op \in {"make", "makem"} -> Len(objs) < MaxObj
+    [] e.op \in {"insys", "convinsys"} -> e.i \in DOMAIN objs /\ SysOk(user) /\ ~Stale(user, objs[e.i])
     [] e.op \in {"to", "plus", "tou"} -> Len(objs) < MaxObj /\ e.i \in DOMAIN objs /\ (e.op # "to" => e.j \in DOMAIN objs)
     [] e.op = "over" -> e.i \in DOMAIN objs /\ e.j \in DOMAIN objs /\ OverPlain(e.i, e.j) /\ Small(objs[e.i]) /\ Small(objs[e.j])
     [] e.op = "convinu" -> e.i \in DOMAIN objs /\ e.j \in DOMAIN objs
@@ -36,6 +38,10 @@ StepAction(e) ==
     [] e.op = "contains" -> RegCall(e.h, Contains(e.sym))
     [] e.op = "unit" -> RegCall(e.h, Construct(e.str))
     [] e.op = "make" -> Make(e.h, e.str)
+    [] e.op = "newsys" -> NewSys
+    [] e.op = "makem" -> MakeM(e.h)
+    [] e.op = "insys" -> InSys(e.i)
+    [] e.op = "convinsys" -> ConvInSys(e.i)
     [] e.op = "to" -> To(e.i, e.str)
     [] e.op = "convin" -> ConvIn(e.i, e.str)
     [] e.op = "plus" -> Plus(e.i, e.j)
@@ -76,6 +82,13 @@ TOk(e) == /\ sres' = e.res
 
 (* ---- P, on the observation ---- *)
 HasPre(e) == (("i" \in DOMAIN e) => e.i \in DOMAIN pre) /\ (("j" \in DOMAIN e) => e.j \in DOMAIN pre)
+\* was an operand labelled before an edit of its spelling?  From the observation: the symbols the operand's unit is
+\* written with (preex) no longer mean, in the caller's view of the registry, the scale and dimension the operand holds.
+\* The statement says such objects keep the value they had; it does not say every call must still accept them (a call
+\* that looks their symbols up in the table may refuse) - so for a stale operand a refusal is not judged, a result is.
+ObsStale(n) == n \in DOMAIN pre /\ n \in DOMAIN preex /\
+               Stale(ruser, [s |-> pre[n].s, d |-> pre[n].d, ex |-> [k \in Keys |-> preex[n][KeyIdx(k)]], plain |-> preex[n][5] = 0])
+StaleOp(e) == ("i" \in DOMAIN e /\ ObsStale(e.i)) \/ ("j" \in DOMAIN e /\ ObsStale(e.j))
 Want(e) ==
   CASE e.op = "unit" -> RefResolve(ruser, e.str)
     [] e.op = "make" -> LET w == RefResolve(ruser, e.str) IN
@@ -88,18 +101,13 @@ Want(e) ==
     [] e.op \in {"eq", "lt"} -> RefCmp(e.op, pre[e.i], pre[e.j])
     [] e.op \in {"copy", "deepcopy", "pickle"} -> RefSame(pre[e.i])
     [] e.op = "inbase" -> RefBase(pre[e.i])
+    [] e.op = "makem" -> [k |-> "obj", o |-> [v |-> R(2 * Len(pre) + 3), s |-> ROne, d |-> <<1, 0>>]]
+    [] e.op \in {"insys", "convinsys"} -> IF SysOk(ruser) /\ ~ObsStale(e.i) THEN RefSys(ruser, pre[e.i]) ELSE e.res
     [] OTHER -> e.res
-Clause(e) == IF e.op \in {"unit", "make"} THEN "C12_Fresh"
+Clause(e) == IF e.op \in {"unit", "make", "makem", "insys", "convinsys"} THEN "C12_Fresh"
              ELSE IF e.op \in {"copy", "deepcopy", "pickle"} THEN "C12_Keep" ELSE "C12_HistoryFree"
-\* was an operand labelled before an edit of its spelling?  From the observation: the symbols the operand's unit is
-\* written with (preex) no longer mean, in the caller's view of the registry, the scale and dimension the operand holds.
-\* The statement says such objects keep the value they had; it does not say every call must still accept them (a call
-\* that looks their symbols up in the table may refuse) - so for a stale operand a refusal is not judged, a result is.
-ObsStale(n) == n \in DOMAIN pre /\ n \in DOMAIN preex /\
-               Stale(ruser, [s |-> pre[n].s, d |-> pre[n].d, ex |-> [k \in Keys |-> preex[n][KeyIdx(k)]]])
-StaleOp(e) == ("i" \in DOMAIN e /\ ObsStale(e.i)) \/ ("j" \in DOMAIN e /\ ObsStale(e.j))
 \* did the call go through another handle than the last successful edit?
-Target(e) == IF e.op \in {"convin", "convinu"} THEN {e.i} ELSE {}
+Target(e) == IF e.op \in {"convin", "convinu", "convinsys"} THEN {e.i} ELSE {}
 FrameBad(e) == {n \in DOMAIN pre : /\ n \in DOMAIN e.objs
                                    /\ e.objs[n] # pre[n]
                                    /\ (n \notin Target(e) \/ Want(e).k # "obj")}
